@@ -51,7 +51,7 @@ def specTdDigest (input : Bytes) : Option (Option Bytes × Bool) :=
       let open_ := hasOpenLiteralMembers b.domain || hasOpenLiteralMembers b.message
       match Spec.Eip712.digests Prim.keccak256 b.types b.primaryType b.domain b.message fuel with
       | some (_, _, dg) => some (some dg, open_)
-      | none => some (none, open_)
+      | none => if hasDoubledPrefixMembers b.domain || hasDoubledPrefixMembers b.message then none else some (none, open_)
     | _ => none
 
 end Hdw.Driver.Judge
